@@ -10,8 +10,10 @@ CONSTANTS XKinds = {"none","lit","pdep"}
           SwapDepClasses = FALSE
           ForgetOutputs = FALSE
           DurDepsOffByOne = FALSE
+          TruthyOptions = FALSE
 INIT Init
 NEXT Next
 INVARIANT RoundTrip
 INVARIANT NoMXPickled
+INVARIANT SwitchedIsFresh
 CHECK_DEADLOCK FALSE
